@@ -246,6 +246,11 @@ async def _run(case):
             "reconfig_discarded": flags["reconfig_discarded"],
             "ranks": [[ranks[ep].get(i, []) for i in range(len(sim.channels[ep]))] for ep in (0, 1)],
             "reconfig_pending": [bool(sim.eps[e]._reconfig_request) or bool(sim.eps[e]._reconfig_queue) for e in (0, 1)],
+            # receive-side state per stream id (expected stream sequence number, chunks waiting for reassembly) and
+            # the ids a data channel is registered under
+            "inbound": [[[sid, st.sequence_number, len(st.reassembly)] for sid, st in sim.eps[e]._inbound_streams.items()]
+                        for e in (0, 1)],
+            "registered": [sorted(sim.eps[e]._data_channels.keys()) for e in (0, 1)],
         })
     finally:
         await sim.stop()
